@@ -132,7 +132,8 @@ EXPORT errno_t _memccpy_s_chk(void *restrict dest, rsize_t dmax,
         *dp = *sp;
         if (*dp == c) { /* found */
 #ifdef SAFECLIB_STR_NULL_SLACK
-            mem_prim_set(dp, n, 0);
+            /* clear the rest behind the stop character */
+            mem_prim_set(dp + 1, n - 1, 0);
             MEMORY_BARRIER;
 #endif
             return RCNEGATE(EOK);
